@@ -20,11 +20,13 @@ def model_ops(case):
     out = []
     for o in case["ops"]:
         if "kill" in o:
-            out.append({"op": "kill", "node": o["kill"]})
+            out.append({"op": "kill", "node": o["kill"], "pid": 0})
         elif o.get("op", {}).get("op") == "force-election":
-            out.append({"op": "force", "node": o["node"]})
+            out.append({"op": "force", "node": o["node"], "pid": 0})
         elif o.get("op", {}).get("op") == "auth":
-            out.append({"op": "auth", "node": o["node"]})
+            out.append({"op": "auth", "node": o["node"], "pid": 0})
+        elif "restart" in o and not o.get("wipe"):
+            out.append({"op": "restart", "node": o["restart"], "pid": int(o["pid"])})
         else:
             return None          # a command the model does not know
     return out
@@ -165,7 +167,7 @@ class Scenario:
 
     def module(self, simulate=False, liveness=True):
         name = "MC_Elect_%s" % self.sid
-        ops = ", ".join('[op |-> %s, node |-> %s]' % (q(o["op"]), q(o["node"])) for o in self.ops)
+        ops = ", ".join('[op |-> %s, node |-> %s, pid |-> %d]' % (q(o["op"]), q(o["node"]), o.get("pid", 0)) for o in self.ops)
         pid = " @@ ".join("(%s :> %d)" % (q(n), p) for n, p in zip(self.nodes, self.pids))
         mod = ("---- MODULE %s ----\nEXTENDS NunElect, Json\nNodeSeqDef == <<%s>>\nPidDef == %s\nOpsDef == <<%s>>\n"
                "FormSchedDef == <<%s>>\n"
@@ -186,6 +188,9 @@ class Scenario:
         def line(o):
             if o["op"] == "kill":
                 return {"node": o["node"], "kill": o["node"], "line": "<kill %s>" % o["node"], "op": {"op": "kill"}}
+            if o["op"] == "restart":
+                return {"node": o["node"], "restart": o["node"], "pid": o["pid"], "wipe": False,
+                        "line": "<restart %s>" % o["node"], "op": {"op": "restart"}}
             if o["op"] == "force":
                 return {"node": o["node"], "c": "adm", "line": "debug force-election", "op": {"op": "force-election"}}
             return {"node": o["node"], "c": "adm", "line": "auth admin adminpwd", "op": {"op": "auth"}}
